@@ -97,7 +97,7 @@ func (t *Type) AddAttr(attr Attr) error {
 func (t *Type) RemoveAttr(attr string) {
 	for i := range t.Attrs {
 		if t.Attrs[i].Name == attr {
-			delete(t.Attrs, attr)
+			delete(t.Attrs, i)
 		}
 	}
 }
@@ -133,7 +133,7 @@ func (t *Type) AddRel(rel Rel) error {
 func (t *Type) RemoveRel(rel string) {
 	for i := range t.Rels {
 		if t.Rels[i].FromName == rel {
-			delete(t.Rels, rel)
+			delete(t.Rels, i)
 		}
 	}
 }
